@@ -1,0 +1,108 @@
+//! Hooks for the strengthened whole-collector checks (package `gcfix`): a stand-alone contiguous
+//! `BlockPageResource` that several real threads can allocate from at the same time (C28).
+//!
+//! Every function is a transparent call of the real item; the only state added is a counter of
+//! entries into `BlockPageResource::alloc_pages_slow_sync`.
+
+use crate::policy::immix::block::Block;
+use crate::util::constants::LOG_BYTES_IN_PAGE;
+use crate::util::heap::blockpageresource::BlockPageResource;
+use crate::util::heap::layout::vm_layout::BYTES_IN_CHUNK;
+use crate::util::heap::space_descriptor::SpaceDescriptor;
+use crate::util::heap::PageResource;
+use crate::util::linear_scan::Region;
+use crate::util::opaque_pointer::VMThread;
+use crate::util::Address;
+use crate::vm::VMBinding;
+use std::sync::atomic::{AtomicUsize, Ordering};
+
+static BPR_SLOW_ENTRIES: AtomicUsize = AtomicUsize::new(0);
+
+/// Called on entry of `BlockPageResource::alloc_pages_slow_sync` (before its mutex is taken).
+pub fn bpr_slow_enter() {
+    BPR_SLOW_ENTRIES.fetch_add(1, Ordering::Relaxed);
+}
+
+/// Number of entries into `alloc_pages_slow_sync` so far (all block page resources of the process).
+pub fn bpr_slow_entries() -> usize {
+    BPR_SLOW_ENTRIES.load(Ordering::Relaxed)
+}
+
+/// A stand-alone contiguous `BlockPageResource<VM, immix::Block>` (32 KiB blocks = 8 pages) on a
+/// private space slot of the 64-bit layout. No block is ever touched: only the page resource's own
+/// bookkeeping (free list, block pool, `PageAccounting`) is exercised.
+pub struct UnitBpr<VM: VMBinding> {
+    pr: BlockPageResource<VM, Block>,
+    desc: SpaceDescriptor,
+    start: Address,
+    extent: usize,
+}
+
+// `BlockPageResource` is shared between mutators and GC workers through the space that owns it
+// (the spaces are `Sync` by an `unsafe impl`); the wrapper does the same for the page resource alone.
+unsafe impl<VM: VMBinding> Sync for UnitBpr<VM> {}
+unsafe impl<VM: VMBinding> Send for UnitBpr<VM> {}
+
+impl<VM: VMBinding> UnitBpr<VM> {
+    /// Pages per block.
+    pub const PAGES: usize = 1 << (Block::LOG_BYTES - LOG_BYTES_IN_PAGE as usize);
+
+    /// `BlockPageResource::new_contiguous(log_pages, start, chunks * 4 MiB, VM_MAP, num_workers)`.
+    pub fn new(start: Address, chunks: usize, num_workers: usize) -> Self {
+        let extent = chunks * BYTES_IN_CHUNK;
+        Self {
+            pr: BlockPageResource::new_contiguous(
+                Block::LOG_BYTES - LOG_BYTES_IN_PAGE as usize,
+                start,
+                extent,
+                crate::mmtk::VM_MAP.as_ref(),
+                num_workers,
+            ),
+            desc: SpaceDescriptor::create_descriptor_from_heap_range(start, start + extent),
+            start,
+            extent,
+        }
+    }
+
+    /// What `Space::acquire` does with the page resource for one block: `reserve_pages(8)`, then
+    /// `get_new_pages(descriptor, reserved, 8, tls)`; on failure `clear_request(reserved)`.
+    /// Returns `(start, pages, new_chunk)`.
+    pub fn acquire_block(&self) -> Option<(Address, usize, bool)> {
+        let reserved = self.pr.reserve_pages(Self::PAGES);
+        match self
+            .pr
+            .get_new_pages(self.desc, reserved, Self::PAGES, VMThread::UNINITIALIZED)
+        {
+            Ok(r) => Some((r.start, r.pages, r.new_chunk)),
+            Err(_) => {
+                self.pr.clear_request(reserved);
+                None
+            }
+        }
+    }
+
+    /// `release_block`.
+    pub fn release_block(&self, start: Address) {
+        self.pr.release_block(Block::from_aligned_address(start))
+    }
+
+    /// `flush_all`.
+    pub fn flush_all(&self) {
+        self.pr.flush_all()
+    }
+
+    /// `(reserved_pages, committed_pages)`.
+    pub fn counters(&self) -> (usize, usize) {
+        (self.pr.reserved_pages(), self.pr.committed_pages())
+    }
+
+    /// Blocks waiting in the block pool.
+    pub fn pool_len(&self) -> usize {
+        self.pr.verif_pool_len()
+    }
+
+    /// `(start, extent)` of the space slot.
+    pub fn range(&self) -> (Address, usize) {
+        (self.start, self.extent)
+    }
+}
